@@ -4,7 +4,7 @@ From BV Require Import Base.Prelude Model.Block Model.ForkDB Model.Forkable Spec
   Spec.C01_Spec Spec.C01_Moving_Spec Proofs.C02_Proofs.
 Local Open Scope N_scope.
 
-(* partial: exclusive starting LIB coherent with the history, any handler oracle
+(* partial: configured starting LIB (exclusive or inclusive) coherent with the history, any handler oracle
    (c01_full in Spec/C01_Spec.v is the full statement) *)
 Theorem c01_moving_lib_partial : c01_moving_lib_statement.
 Proof. exact c01_moving_lib_proved. Qed.
@@ -23,8 +23,15 @@ Definition mv_cfg (kept : N) (alltrig : bool) : config :=
 (* the handler fails at its 12th call: inside the second reorganisation *)
 Definition mv_cfg_fail : config := mkCfg 0 false false 1 false (mkFilter true true true true) (Some 11).
 
+(* inclusive mode: the LIB block itself (id 1) is fed first and is delivered as New + Irreversible *)
+Definition mv_hist_incl : list block := mkBlock 1 10 100 9 :: mv_hist.
+Definition mv_cfg_incl : config := mkCfg 0 true false 1 false (mkFilter true true true true) None.
+
 Example c01_moving_nonvacuous :
-  moving_scope_b mv_r0 mv_hist = true /\
+  rooted_mode mv_r0 (LExcl mv_r0) /\ rooted_mode mv_r0 (LIncl mv_r0) /\
+  moving_scope_b mv_r0 mv_hist = true /\ moving_scope_b mv_r0 mv_hist_incl = true /\
+  map (fun x => map (fun e => (estep e, bid (eblk e))) (fst x)) (firstn 5 (fk_run mv_cfg_incl (fs_init (LIncl mv_r0)) mv_hist_incl)) =
+    [ [(SNew, 1); (SIrr, 1)]; [(SNew, 2)]; [(SNew, 3)]; []; [(SUndo, 3); (SNew, 4); (SNew, 5); (SIrr, 2)] ] /\
   map (fun x => map (fun e => (estep e, bid (eblk e))) (fst x)) (fk_run (mv_cfg 0 false) (fs_init (LExcl mv_r0)) mv_hist) =
     [ [(SNew, 2)]; [(SNew, 3)]; []; [(SUndo, 3); (SNew, 4); (SNew, 5); (SIrr, 2)]; []; []; []; [];
       [(SUndo, 5); (SUndo, 4); (SNew, 3); (SNew, 6); (SNew, 11); (SIrr, 3); (SStalled, 4)]; [];
@@ -33,4 +40,4 @@ Example c01_moving_nonvacuous :
   existsb (fun e => step_eqb (estep e) SUndo) (all_events (fk_run (mv_cfg 2 true) (fs_init (LExcl mv_r0)) mv_hist)) = true /\
   map (fun x => (map (fun e => (estep e, bid (eblk e))) (fst x), snd x)) (skipn 8 (fk_run mv_cfg_fail (fs_init (LExcl mv_r0)) mv_hist)) =
     [ ([(SUndo, 5); (SUndo, 4); (SNew, 3); (SNew, 6); (SNew, 11); (SIrr, 3)], RHandlerErr) ].
-Proof. vm_compute. auto. Qed.
+Proof. vm_compute. repeat split; auto. Qed.
